@@ -15,6 +15,7 @@ mod c11;
 mod c15;
 mod c17;
 mod c18;
+mod c18x;
 mod c12;
 mod c13;
 mod c20;
